@@ -157,6 +157,10 @@ fn parse_ledger(dump: &BTreeMap<String, Vec<u8>>) -> Ledger {
 
 #[derive(Clone)]
 struct Proposal {
+    /// identity of this proposal within the run (assigned when it is prepared). The byte content
+    /// of a prepared block can vary between runs (the application iterates a HashSet when it
+    /// assembles the id->pair mapping), so schedule decisions are keyed on this, never on bytes.
+    uid: u64,
     hd: BlockHeader,
     hash: Hash,
     txs: Vec<Bytes>,
@@ -206,7 +210,8 @@ struct Sim<'a> {
     pending_bundles: BTreeSet<[u8; 32]>,
     cur_block_op: u32,
     /// per node: hashes of the proposals of the current height it accepted in ProcessProposal
-    validated: Vec<BTreeSet<Vec<u8>>>,
+    validated: Vec<BTreeSet<u64>>,
+    next_uid: u64,
     /// full verifiable key space after the previous decided block
     prev_dump: BTreeMap<String, Vec<u8>>,
 }
@@ -326,6 +331,7 @@ impl<'a> Sim<'a> {
             pending_bundles: BTreeSet::new(),
             cur_block_op: 0,
             validated: Vec::new(),
+            next_uid: 0,
             prev_dump: dump.clone(),
         };
         super::ibc_stub::enable(true);
@@ -1055,7 +1061,8 @@ impl<'a> Sim<'a> {
                     Ok(resp) => {
                         let hash = world::block_hash(h, time, &hd.proposer, &resp.txs);
                         self.trace.ev(&format!("prepare h={h} r={ri} node={p} txs={} bytes={}", resp.txs.len(), resp.txs.iter().map(Bytes::len).sum::<usize>()));
-                        let prop = Proposal { hd, hash, txs: resp.txs, by: p };
+                        self.next_uid += 1;
+                        let prop = Proposal { uid: self.next_uid, hd, hash, txs: resp.txs, by: p };
                         self.check_prepared(&prop, b.max_tx_bytes, has_ext_item);
                         prop
                     }
@@ -1083,11 +1090,11 @@ impl<'a> Sim<'a> {
             // have validated the block (now, or in an earlier round if it is a re-proposal).
             let mut all_ok = true;
             let mut process_mask = round.process;
-            if deciding && !live.iter().any(|n| process_mask & (1 << (*n as u8 % 8)) != 0 || self.validated[*n].contains(proposal.hash.as_bytes())) {
+            if deciding && !live.iter().any(|n| process_mask & (1 << (*n as u8 % 8)) != 0 || self.validated[*n].contains(&proposal.uid)) {
                 process_mask |= 1 << (live[round.process as usize % live.len()] as u8 % 8);
             }
             for n in &live {
-                let reprocess_skipped = self.validated[*n].contains(proposal.hash.as_bytes());
+                let reprocess_skipped = self.validated[*n].contains(&proposal.uid);
                 if process_mask & (1 << (*n as u8 % 8)) == 0 {
                     continue;
                 }
@@ -1101,7 +1108,7 @@ impl<'a> Sim<'a> {
                 let res = guarded(node.app.as_mut().unwrap().process_proposal(req, storage)).await;
                 match res {
                     Ok(()) => {
-                        self.validated[*n].insert(proposal.hash.as_bytes().to_vec());
+                        self.validated[*n].insert(proposal.uid);
                         self.nodes[*n].path.push(if deciding { 'p' } else { 'x' });
                         self.trace.ev(&format!("process h={h} r={ri} node={n} accept"));
                     }
